@@ -440,9 +440,8 @@ class MemOrchestrator(BaseOrchestrator):
         :param invocation_id: The invocation to get the lock for.
         :return: A threading Lock for the given invocation.
         """
-        if invocation_id not in self.locks:
-            self.locks[invocation_id] = threading.Lock()
-        return self.locks[invocation_id]
+        # dict.setdefault is atomic: two first-time callers must obtain the same lock
+        return self.locks.setdefault(invocation_id, threading.Lock())
 
     def _atomic_status_transition(
         self,
